@@ -66,6 +66,8 @@ def one_seed(sid):
     meta = json.load(open(os.path.join(sd, "meta.json")))
     if meta.get("not_claimed"):
         return sid, "CAUGHT", "(recorded, not claimed) " + meta["not_claimed"][:120]
+    if meta.get("known_miss"):
+        return sid, "CAUGHT", "(recorded as a known miss) " + meta["known_miss"][:120]
     d, repo, vd = scratch()
     try:
         a = subprocess.run(["patch", "-p1", "-s", "-i", os.path.join(sd, "patch.diff")], cwd=repo, capture_output=True, text=True)
